@@ -32,6 +32,7 @@ def gen_cases(tier, seed):
                       "nested": bool(k % 3 == 0), "stale_grads": bool(k % 4 == 3),
                       "refit": bool(k % 5 == 0), "raising_callback": bool(k % 4 == 1), "binary_logits": bool(k % 6 == 1),
                       "soft_targets": bool(k % 2 == 0), "bn_tracking_off": bool(k % 7 == 2), "test_under_no_grad": bool(k % 2 == 1),
+                      "no_accuracy": bool(k % 11 == 7),
                       "seed": int(rng.integers(2 ** 31))})
     return cases
 
@@ -186,7 +187,11 @@ def run_case(ns, ctx, c):
     ev = None
     if c["evaluator"]:
         extra = (lambda yt, yp: [("f1", np.float64(0.25))]) if c["extra_metric"] else None
-        ev = Evaluator(epoch_callback=extra, step_callback=None, accuracy=True, mode=mode)
+        if c.get("no_accuracy"):
+            # only the caller's metrics: accuracy switched off, a per-step and a per-epoch callback (reach monitor: never driven)
+            ev = Evaluator(epoch_callback=lambda yt, yp: [("f1", np.float64(0.25))], step_callback=lambda yt, yp: [("n", np.float64(len(yt)))], accuracy=False, mode=mode)
+        else:
+            ev = Evaluator(epoch_callback=extra, step_callback=None, accuracy=True, mode=mode)
     if c.get("stale_grads"):
         # the caller checked a forward/backward by hand before fit: parameters hold gradients when training starts
         xb_, yb_ = transform(None, Xtr[:c["bs"]], ytr[:c["bs"]])
@@ -370,7 +375,9 @@ def run_case(ns, ctx, c):
     def close(a, b):
         return abs(float(a) - float(b)) <= 1e-5 * max(1.0, abs(float(b)))
     want_keys = {"loss"}
-    if c["evaluator"]:
+    if c["evaluator"] and c.get("no_accuracy"):
+        want_keys.add("f1")
+    elif c["evaluator"]:
         want_keys.add("accuracy")
         if c["extra_metric"]:
             want_keys.add("f1")
@@ -422,7 +429,7 @@ def run_case(ns, ctx, c):
                 viol.append(V("test:sample-count", f"Trainer.test returned {len(yp)} predictions / {len(yt_)} labels for {(len(yt) // c['bs']) * c['bs']} batched samples"))
     if refit is not None:
         E2, h2 = refit
-        want2 = {"loss"} | ({"accuracy"} if c["evaluator"] else set()) | ({"f1"} if c["evaluator"] and c["extra_metric"] else set())
+        want2 = {"loss"} | ({"accuracy"} if c["evaluator"] and not c.get("no_accuracy") else set()) | ({"f1"} if c["evaluator"] and (c["extra_metric"] or c.get("no_accuracy")) else set())
         if set(h2.keys()) != want2:
             viol.append(V("history:keys:second-fit", f"history of a second fit (no validation loader) has keys {sorted(h2.keys())}, expected {sorted(want2)}"))
         for k_, v_ in h2.items():
